@@ -9,6 +9,7 @@ A program is a list of nodes (JSON):
   ["try", id, body]
   ["throw"]
   ["root", var, val]
+  ["redefs", var, val, body]              (with-redefs [var val] body) by the designated root-changing thread
   ["future", body, after]                 body runs in a pool thread with the creator's
                                           bindings; `after` runs in the creator before deref
   ["boundfn", body]                       bound-fn run on a fresh thread, joined
@@ -91,6 +92,9 @@ class Model:
             raise ModelThrow("throw")
         elif t == "root":
             pass
+        elif t == "redefs":
+            # with-redefs changes ROOTS (tracked by the check from its events), never this thread's bindings
+            self.run(n[3], env, ctx)
         elif t == "future":
             child = [dict(self.flat(env))]
             cctx = {"kind": "conveyed", "failed": [False]}
@@ -182,6 +186,8 @@ def _emit(n):
         return '(throw (ex-info "boom" {}))'
     if t == "root":
         return f"(root! (var {n[1]}) {n[2]})"
+    if t == "redefs":
+        return f'(py-redefs! "{n[1]}" {n[2]} (fn [] {emit(n[3])}))'
     if t == "future":
         _ctr[0] += 1
         nm = f"fut_{_ctr[0]}"
